@@ -18,7 +18,7 @@ RULE = ("well-formed server streams of 5..80 def*/set*/delProperty/message/ping/
         "view is compared with an independent reference interpreter; the receive-loop task must stay alive, nothing may be raised, "
         "every Buffer.process call runs under a step budget. non-trivial = a stream in which at least 3 messages changed the mirror; "
         "distinct = hash(stream, spelling seed, fragmentation, mode)")
-ASSUMPTIONS = ["messages stay below the control connection's 2048-character threshold", "BLOB sizes in the stream are consistent with their payloads"]
+ASSUMPTIONS = ["messages on a control-mode connection stay below its 2048-character threshold (BLOB-mode connections get payloads up to 6000 bytes)", "BLOB sizes in the stream are consistent with their payloads"]
 REQUIRED_EVENTS = ["streams", "messages_applied", "views_compared", "wire_mode_streams", "direct_mode_streams", "snoop_mode_streams",
                    "whole_device_deletions", "redefinitions", "empty_blob_payloads"]
 QUICK_SHARDS = 4
@@ -50,6 +50,12 @@ async def run_stream(ctx, case):
         ctx.count("streams")
         ctx.count(mode.split("-")[0] + "_mode_streams")
         for k, am in enumerate(msgs):
+            if mode == "wire-blobs" and am["tag"] == "setBLOBVector" and am["children"] and frng.random() < 0.4:
+                # the BLOB connection has no junk threshold: payloads far beyond 2048 characters must arrive
+                text_, nbytes = G.gen_b64(frng, frng.choice([1600, 3000, 6000]))
+                am["children"][0]["text"] = text_
+                am["children"][0]["attrs"]["size"] = str(nbytes)
+                ctx.count("long_payloads_on_the_blob_connection")
             sp = G.spellings(rng, 1)[0]
             text = G.write_xml(am, sp)
             view = view_xml(text)
